@@ -469,3 +469,13 @@ pub mod ring {
         }
     }
 }
+
+/// Entry points into module-private code, each a call and never a copy of logic
+pub mod door {
+    /// (client random, SNI, ALPN list) as `TlsListener::listen` extracts them
+    pub async fn tls_peek(
+        stream: super::os::TcpStream,
+    ) -> ::std::io::Result<(Option<Vec<u8>>, Option<String>, Vec<Vec<u8>>)> {
+        crate::tls_listener::verif_peek(stream).await
+    }
+}
